@@ -198,7 +198,38 @@ def u_select_entry(c):
 VALID = ("#enter", "#error", "#exit", "#receive", "#value", "#yield")
 
 
-@unit("problems", ["C18", "C10", "C11"], [S + ":Call.problems", S + ":verify", S + ":check_element"])
+def _replay_problems(o):
+    m = o.get("model") or {}
+    nm = (m.get("name") or "").strip('"')
+    if not nm or "\\u" in nm or not all(ch.isalnum() or ch in "#_." for ch in nm):
+        nm_list = ["#values", "#value_", "#enterx", "#loop", "#what", "zz", "a.b", "#loop_i", "#value"]
+    else:
+        nm_list = [nm]
+    return f'''
+import sys
+sys.path.insert(0, "/repo")
+from ptera import probing
+from ptera.selector import SelectorError
+VALID = ("#enter", "#error", "#exit", "#receive", "#value", "#yield")
+def f(a):
+    b = a
+    return b
+bad = []
+for nm in {nm_list!r}:
+    should_refuse = (nm.startswith("#") and not nm.startswith(("#loop_", "#endloop_")) and nm not in VALID) or (not nm.startswith("#") and nm.split(".")[0] not in ("a", "b"))
+    try:
+        with probing("f > " + nm, env={{"f": f}}):
+            refused = False
+    except SelectorError:
+        refused = True
+    if refused != should_refuse:
+        bad.append((nm, "refused" if refused else "accepted", "should be " + ("refused" if should_refuse else "accepted")))
+print(bad or "ok")
+sys.exit(1 if bad else 0)
+'''
+
+
+@unit("problems", ["C18", "C10", "C11"], [S + ":Call.problems", S + ":verify", S + ":check_element"], replay=_replay_problems)
 def u_problems(c):
     """For a capture with ANY name (symbolic string): a problem is reported iff it is a #name that is neither one of the six
     documented meta-variables nor a #loop_/#endloop_ name, or a plain name whose base (before the first dot) is not in the
@@ -275,3 +306,139 @@ def u_probe_construction(c):
             c.prove("rule/kind", r.cls.name == ("Immediate" if want_immediate else "Total"))
             em = r.fields["_intercept" if overridable else ("_trigger" if want_immediate else "_close")]
             c.prove("rule/emitter", isinstance(em, BoundV) and em.func.name == ("_emit2" if tags == {1, 2} else "_emit"))
+
+
+# ---------------------------------------------------------------------------------------------
+# C15: documented notations are interchangeable (real lexer + Parser.process + evaluator on token skeletons)
+# ---------------------------------------------------------------------------------------------
+def _replay_equiv(o):
+    note = o.get("note") or ""
+    import re as _re
+    m = _re.search(r"'([^']*)' vs '([^']*)'", note) or _re.search(r"'([^']*)': \w+ .* / '([^']*)':", note)
+    if not m:
+        return None
+    lhs, rhs = m.group(1), m.group(2)
+    return f'''
+import sys
+sys.path.insert(0, "/repo")
+from ptera.selector import parse
+def comp(s):
+    try:
+        return parse(s)
+    except SyntaxError as e:
+        return "SyntaxError"
+l, r = comp({lhs!r}), comp({rhs!r})
+print(repr({lhs!r}), "->", l)
+print(repr({rhs!r}), "->", r)
+sys.exit(0 if l is r or (l == r == "SyntaxError") else 1)
+'''
+
+
+EQUIV = [
+    # (lhs, rhs, focus word)
+    ("f > X", "f(!X)", "x"),
+    ("f(A) > X", "f(A, !X)", "x"),
+    ("a > b > X", "a > (b > X)", "x"),
+    ("a > b > X", "a(b(!X))", "x"),
+    ("f() as r", "f(!#value as r)", "#value"),
+    ("$xD", "* as xD", None),
+    ("f > $xD", "f > * as xD", None),
+    ("f($xD) > y", "f(* as xD) > y", None),
+    ("f(A, $xD)", "f(A, * as xD)", None),
+    ("f(A)=cc", "f(A, #value=cc)", None),
+    ("f(A) > g(B) > X", "f(A, g(B, !X))", "x"),
+]
+FOCUS_FORMS = ["x", "x:@T", "x as y", "x:@T as y", "*", "#value", "$x", "x=1"]
+CONTEXT_FORMS = ["a", "a:@T", "a as z", "a=1", "$q", "#enter", "a, k", "h(j)"]
+RESERVED = {"as"}
+
+
+def _is_placeholder(w):
+    return w.isalpha() and w not in RESERVED and w != "T"
+
+
+def _compile(it, text, syms):
+    """Lex `text` with the real lexer, replace identifier words by symbolic names, parse and evaluate with the real code."""
+    c = it.ctx
+    parser = it.get_global(S, "parser")
+    toks = it.call(it.getattr(parser, "lexer"), [text], {})
+    for t in toks:
+        v = t.fields["value"]
+        if t.fields["type"] == "WORD" and isinstance(v, str) and _is_placeholder(v):
+            syms[v] = v  # operand names are concrete representatives (interning over symbolic names: unit 'interning')
+    tree = it.call(it.getattr(parser, "process"), [toks], {})
+    return it.call(it.get_global(S, "evaluate"), [tree], {})
+
+
+@unit("equivalences", ["C15"], [S + ":" + a for a in sorted({v[0] for v in ACTIONS.values()})] +
+      [S + ":make_symbol", S + ":_guarantee_call", S + ":Evaluator.__call__", S + ":InternedMC.__call__", S + ":Element.clone", S + ":Element.with_focus",
+       S + ":Element.without_focus", S + ":Call.clone", OP + ":Parser.process", OP + ":Parser.finalize", OP + ":OperatorPrecedenceTower.resolve",
+       OP + ":OperatorPrecedenceTower.__call__", OP + ":ASTNode.__init__", OP + ":Lexer.__call__", OP + ":Token.__init__"],
+      assumed=["operand names are concrete representatives (the actions never inspect a name except for '*'; interning for symbolic names is the unit 'interning'); re.match executed natively"],
+      max_paths=6000, replay=_replay_equiv)
+def u_equivalences(c):
+    """Each documented pair of spellings compiles to THE SAME selector object, for symbolic operand names and for every
+    operand form of a small grammar (names, tags, aliases, values, generic captures, meta-variables, sequences, nested
+    calls); the focus is the variable marked with ! or standing after the last >."""
+    it = Interp(c)
+    k = c.choose(len(EQUIV), "law")
+    lhs, rhs, focus = EQUIV[k]
+    subs = {}
+    if "X" in lhs:
+        subs["X"] = FOCUS_FORMS[c.choose(len(FOCUS_FORMS), "focus-form")]
+    if "A" in lhs:
+        subs["A"] = CONTEXT_FORMS[c.choose(len(CONTEXT_FORMS), "context-form")]
+    if "D" in lhs:
+        subs["D"] = ["", ":@T", "=1", ":@T=1", " "][c.choose(5, "decoration")]
+    if "B" in lhs:
+        subs["B"] = CONTEXT_FORMS[c.choose(3, "context-form-2")].replace("a", "bb").replace("z", "zz")
+    for kk, v in subs.items():
+        lhs, rhs = lhs.replace(kk, v), rhs.replace(kk, v)
+    if subs.get("X") in ("$x", "x=1") and "!" in rhs:
+        pass
+    syms = {}
+    st1, l = run(it, SummaryFn("compile", lambda it_, a, kw: _compile(it_, lhs, syms)), [])
+    st2, r = run(it, SummaryFn("compile", lambda it_, a, kw: _compile(it_, rhs, syms)), [])
+    label = f"law{k}"
+    if st1 != "ok" or st2 != "ok":
+        # a pair that one spelling refuses must be refused by the other as well (with a syntax error)
+        c.prove(f"{label}/both-spellings-refused-alike", st1 == st2 and isinstance(l, SyntaxError) and isinstance(r, SyntaxError),
+                note=f"{lhs!r}: {st1} {l!r} / {rhs!r}: {st2} {r!r}")
+        return
+    c.prove(f"{label}/same-selector-object", l is r, note=f"{lhs!r} vs {rhs!r}")
+    if focus is not None and isinstance(l, Obj):
+        main = it.getattr(l, "main")
+        nm = None if main is None else main.fields["name"]
+        fx = subs.get("X", focus)
+        if fx in ("x", "x:@T", "x as y", "x:@T as y", "x=1"):
+            want = syms.get("x")
+            c.prove(f"{label}/focus-is-the-marked-variable", main is not None and nm == want and 1 in main.fields["tags"], note=f"{lhs!r}")
+        elif fx == "#value":
+            c.prove(f"{label}/focus-is-the-marked-variable", main is not None and nm == "#value" and 1 in main.fields["tags"], note=f"{lhs!r}")
+        elif fx in ("*", "$x"):
+            c.prove(f"{label}/focus-is-the-marked-variable", main is not None and nm is None and 1 in main.fields["tags"], note=f"{lhs!r}")
+
+
+@unit("interning", ["C15", "C13"], [S + ":InternedMC.__call__", S + ":Element.__init__", S + ":Call.__init__"])
+def u_interning(c):
+    """Compiled selectors that are structurally equal are the same object: two constructions return the same object iff
+    all their fields are equal (defaults filled in, keyword order irrelevant); the field values end up in a dictionary key,
+    so they must be hashable."""
+    it = Interp(c)
+    Element = it.get_global(S, "Element")
+    Call = it.get_global(S, "Call")
+    n1, n2 = c.str("n1"), c.str("n2")
+    c1 = [None, "k"][c.choose(2)]
+    c2 = [None, "k"][c.choose(2)]
+    e1 = it.call(Element, [], dict(name=n1, capture=c1))
+    e2 = it.call(Element, [], dict(capture=c2, name=n2))
+    same = z3.And(n1.t == n2.t, c1 == c2)
+    c.prove("element/same-object-iff-equal-fields", same if e1 is e2 else z3.Not(same))
+    c.prove("element/defaults", e1.fields["value"] is it.models.absent(it) and e1.fields["category"] is None and e1.fields["tags"] == frozenset())
+    e3 = it.call(it.getattr(e1, "clone"), [], {})
+    c.prove("element/clone-without-changes-is-self", e3 is e1)
+    k1 = it.call(Call, [], dict(element=e1, captures=(e2,)))
+    k2 = it.call(Call, [], dict(captures=(e2,), element=e1, immediate=False, children=()))
+    c.prove("call/same-object-for-equal-fields", k1 is k2)
+    k3 = it.call(Call, [], dict(element=e1, captures=(e2,), immediate=True))
+    c.prove("call/different-field-different-object", k3 is not k1)
